@@ -51,8 +51,9 @@ type Sched struct {
 	back     chan struct{}
 	backFlag int32
 
-	Mode      int // 0 uniform random, 1 PCT priorities
-	pctChange [4]int
+	Mode      int // 0 uniform random, 1 PCT priorities, 2 bursts (keep the running task with probability 7/8)
+	pctChange [8]int
+	last      int
 
 	Steps     int
 	MaxSteps  int
@@ -280,8 +281,13 @@ func (s *Sched) Run() {
 		go s.taskBody(i)
 	}
 	if s.Mode == 1 {
+		// priority change points: half of them early, half anywhere in a run of typical length
 		for k := range s.pctChange {
-			s.pctChange[k] = s.rng.Intn(200)
+			if k%2 == 0 {
+				s.pctChange[k] = s.rng.Intn(200)
+			} else {
+				s.pctChange[k] = s.rng.Intn(4000)
+			}
 		}
 	}
 	var runnable [MaxTasks]int
@@ -337,6 +343,20 @@ func (s *Sched) Run() {
 					s.tasks[runnable[pick]].prio = s.rng.Intn(9) // demote the running task
 				}
 			}
+		case s.Mode == 2:
+			// bursts: the task that ran last keeps running with probability 7/8, so that one task can get through a
+			// whole fetch (lock, read, decode) while another sits between two of its own steps
+			pick = -1
+			if s.rng.Intn(8) != 0 {
+				for k := 0; k < n; k++ {
+					if runnable[k] == s.last {
+						pick = k
+					}
+				}
+			}
+			if pick < 0 {
+				pick = s.rng.Intn(n)
+			}
 		default:
 			pick = s.rng.Intn(n)
 		}
@@ -345,6 +365,7 @@ func (s *Sched) Run() {
 		}
 		s.nDec++
 		ti := runnable[pick]
+		s.last = ti
 		s.Steps++
 		s.TraceHash = s.TraceHash*1099511628211 ^ uint64(ti+1)*31 ^ hashStr(s.tasks[ti].point)
 		s.noteState()
